@@ -86,6 +86,8 @@ def gen_scalar(rng, ty, lib):
 
 def gen_plain_default(rng, ty, lib):
     """a default value without configuration objects"""
+    if ty == "float" and rng.random() < 0.3:
+        return rng.choice([0, 1, 2, 10, -1])  # `x: Param[float] = 1`: the literal keeps its Python type (int)
     if isinstance(ty, dict) and "list" in ty:
         if has_cfg(ty["list"]) or rng.random() < 0.5:
             return {"l": []}
